@@ -58,7 +58,10 @@ def check_codec(ctx, rep, wq, rq, label, expect_all_fields):
                                                                             for tg in ctx.world.resolve_call(ctx.world.types(wfi), loop.body[0].value.args[0]))
             if not ok and isinstance(v, ast.ListComp):
                 g = v.generators[0]
-                ok = not g.ifs and isinstance(g.iter, ast.Attribute) and nm.canon(g.iter.attr) == "_children"
+                ok = len(v.generators) == 1 and not g.ifs and isinstance(g.iter, ast.Attribute) and nm.canon(g.iter.attr) == "_children" \
+                    and isinstance(g.iter.value, ast.Name) and g.iter.value.id == nodep and isinstance(v.elt, ast.Call) and any(
+                        tg.func is not None and tg.func.qname == wfi.qname for tg in ctx.world.resolve_call(ctx.world.types(wfi), v.elt)) \
+                    and len(v.elt.args) == 1 and isinstance(v.elt.args[0], ast.Name) and isinstance(g.target, ast.Name) and v.elt.args[0].id == g.target.id
             rep.oblige(("R2", label, "children"), ok)
             if not ok:
                 rep.add("R2", wfi.qname, stmt, "the children slot does not hold the serialisation of every child in order", wfi.loc(stmt))
@@ -103,6 +106,16 @@ def check_codec(ctx, rep, wq, rq, label, expect_all_fields):
         else:
             sinks = set()
             ipf = init_param_fields(ctx)
+            # read in place as the iterable of a loop: the loop variable carries the value on
+            for lp in ast.walk(rfi.node):
+                if isinstance(lp, ast.For) and lp.iter is sub and isinstance(lp.target, ast.Name):
+                    sinks |= sinks_of(ctx, rfi, lp.target.id, node_var)
+            for c in ast.walk(rfi.node):
+                if isinstance(c, ast.Call) and isinstance(c.func, ast.Attribute) and any(a is sub for a in c.args):
+                    from ..layout import method_field as _mf
+                    mf = _mf(ctx, c.func.attr)
+                    if mf:
+                        sinks.add(mf)
             for c in ast.walk(rfi.node):
                 if isinstance(c, ast.Call) and isinstance(c.func, ast.Name) and c.func.id == "Node":
                     init = nm.ci.methods["__init__"]
